@@ -17,6 +17,10 @@ claim("C02",
       "finite-domain evaluation of the depth clamp over every ordering of (request depth, 0, global limit) at every entry into the engine, followed through callers; dominance check of the depth guards; out-of-band cut-off marker typestate (every cut-off site marks, every negation reads the flag before inverting and installs it on both context routes); schema-backed range check of the width truncation; Unknown-row of every combinator's decision table",
       "Decides the clamp, the guards, that a cut-off always reaches every negation before it may answer IsMember, and the truncation bound; does not decide equivalence with a server configured at the effective depth. Right level: these are shape facts (which value is passed, which branch dominates which call).")
 
-for p in ["C01","C04","C05","C06","C07","C08","C09","C11","C12","C13","C14","C16","C18","C19"]:
+claim("C01",
+      "exhaustiveness tables (parser-constructed AST node kinds and operators vs the engine's dispatch switches); abstract execution of every Result combinator against its truth-table contract; dataflow of the context handed to each operand of an intersection/negation back to a per-operand fresh visited set; exhaustive evaluation of checkIsAllowed's branch conditions over all 24 consistent mode valuations against the documented table; def-use check that skipDirect=true only follows a tested traversal result",
+      "Decides five structural necessary conditions of check correctness (dispatch exhaustive, combinator truth tables, visited-set scope, mode table, skipDirect justification); does not decide equality with the reference semantics over all stores. Right level: each is visible in the shape of the engine code on every path.")
+
+for p in ["C04","C05","C06","C07","C08","C09","C11","C12","C13","C14","C16","C18","C19"]:
     na(p, NOTBUILT)
 na("C10", "semantic equivalence between the parser's output and TypeScript's grammar over all programs: precedence/associativity is not a code shape every correct parser shares; no sound structural necessary condition found (and the property is known to be violated: a||b&&c parses as (a||b)&&c), so a static green light would be misleading")
